@@ -164,14 +164,27 @@ def main():
         stages = [s for s in spec["stages"] if tier in s.get("tiers", ["quick", "thorough"])]
         results = {}
         herr = None
-        nst = max(1, len(stages))
-        for st in stages:
+        # cheap stages (small weight) first: what they leave unused is inherited by the later, larger ones;
+        # every stage gets the time left in proportion to its weight among the stages still to run
+        for i, st in enumerate(stages):
             left = deadline - (time.time() - t0)
-            share = max(20.0, left / max(1, nst))
-            nst -= 1
-            m, e = run_stage(prop, st, tier, share * st.get("weight", 1.0), scratch)
+            wsum = sum(s.get("weight", 1.0) for s in stages[i:])
+            share = max(20.0, left * st.get("weight", 1.0) / wsum)
+            m, e = run_stage(prop, st, tier, share, scratch)
             results[st["name"]] = m
             herr = herr or e
+        # second pass: stages that were cut by their share are run again with the time the others left unused
+        # (the exploration is deterministic, so the second run covers a superset of the first)
+        cut = [st for st in stages if not results[st["name"]]["exhaustive"] and not results[st["name"]]["viols"]]
+        for i, st in enumerate(cut):
+            left = deadline - (time.time() - t0)
+            if herr or left < 60:
+                break
+            wsum = sum(s.get("weight", 1.0) for s in cut[i:])
+            m, e = run_stage(prop, st, tier, left * st.get("weight", 1.0) / wsum, scratch)
+            herr = herr or e
+            if m["exhaustive"] or m["viols"] or m["numeric"].get("evaluations", 0) >= results[st["name"]]["numeric"].get("evaluations", 0):
+                results[st["name"]] = m
         return finish(prop, spec, tier, results, herr, time.time() - t0)
     finally:
         shutil.rmtree(scratch, ignore_errors=True)
